@@ -96,11 +96,30 @@ def legacy_usub(x):
         return Expr.parse_UnaryOp(fake)
 
 
+def lit_values(k, s, d):
+    """literal operands covering every literal-dependent branch of the generators (x == MIN, y == -1) and the
+    values the IR optimiser folds (0, 1), plus generic ones."""
+    bits = 8 * k
+    lo, hi = (-(2**(bits - 1)), 2**(bits - 1) - 1) if s else (0, 2**bits - 1)
+    vals = [lo, -1, 0, 1, 7, hi]
+    if d:
+        vals += [10**10, -(10**10)]
+    out = []
+    for v in vals:
+        if lo <= v <= hi and v not in out:
+            out.append(v)
+    return out
+
+
+SHAPES = {"VV": 0, "LV": 1, "VL": 2}
+
+
 def legacy_templates():
-    """-> list of (aop constructor, (k, signed, dec), IRnode) in a fixed order, var/var operand shape."""
+    """-> list of (aop constructor, (k, signed, dec), shape, lit, IRnode) in a fixed order.
+    shape VV: operands are the IR variables x, y; LV: x is the literal `lit`; VL: y is the literal `lit`."""
     from vyper.codegen import arithmetic as A
-    from vyper.codegen.core import clamp_basetype
     from vyper.codegen.ir_node import IRnode
+    from vyper.exceptions import StaticAssertionException
     out = []
     fns = [("AAdd", A.safe_add), ("ASub", A.safe_sub), ("AMul", A.safe_mul), ("ADiv", A.safe_div), ("AMod", A.safe_mod)]
     with settings_ctx():
@@ -108,9 +127,19 @@ def legacy_templates():
             x = IRnode.from_list("x", typ=T)
             y = IRnode.from_list("y", typ=T)
             for name, f in fns:
-                out.append((name, (k, s, d), f(x, y)))
+                out.append((name, (k, s, d), "VV", 0, f(x, y)))
             if s:
-                out.append(("AUSub", (k, s, d), legacy_usub(x)))
+                out.append(("AUSub", (k, s, d), "VV", 0, legacy_usub(x)))
+            for lit in lit_values(k, s, d):
+                ln = IRnode.from_list(lit, typ=T)
+                for name, f in fns:
+                    for shape, a, b in (("LV", ln, y), ("VL", x, ln)):
+                        try:
+                            out.append((name, (k, s, d), shape, lit, f(a, b)))
+                        except StaticAssertionException:
+                            # literal zero divisor: rejected at compile time, no template exists
+                            if not (name == "ADiv" and shape == "VL" and lit == 0):
+                                raise
     return out
 
 
@@ -177,17 +206,29 @@ def vtemplate_term(instrs, r):
 
 
 def venom_templates():
+    """-> list of (aop, (k, s, d), shape, lit, (instrs, result)); shapes as for legacy_templates."""
     from vyper.codegen_venom import arithmetic as V
+    from vyper.venom.basicblock import IRLiteral
     out = []
     with settings_ctx():
         for k, s, d, T in num_types():
             fns = [("AAdd", V.safe_add), ("ASub", V.safe_sub), ("AMul", V.safe_mul),
                    ("ADiv", V.safe_div if d else V.safe_floordiv), ("AMod", V.safe_mod)]
-            for name, f in fns:
-                ins, r, x, y = venom_record(lambda b, x, y: f(b, x, y, T))
+
+            def rec(f, shape, lit):
+                def g(b, x, y):
+                    return f(b, IRLiteral(lit) if shape == "LV" else x, IRLiteral(lit) if shape == "VL" else y, T)
+                ins, r, x, y = venom_record(g)
                 if (x.name, y.name) != ("%1", "%2"):
                     raise ExportError("unexpected parameter names")
-                out.append((name, (k, s, d), (ins, r)))
+                return ins, r
+
+            for name, f in fns:
+                out.append((name, (k, s, d), "VV", 0, rec(f, "VV", 0)))
+            for lit in lit_values(k, s, d):
+                for name, f in fns:
+                    for shape in ("LV", "VL"):
+                        out.append((name, (k, s, d), shape, lit, rec(f, shape, lit)))
     return out
 
 
@@ -213,8 +254,8 @@ Open Scope Z_scope.
 def gen_legacy():
     t = legacy_templates()
     c = legacy_clamps()
-    lines = [HEADER, "Definition legacy_templates : list (aop * nty * lir) := ["]
-    lines.append(";\n".join(f"  ({op}, {nty(*ty)}, {lir_term(n)})" for op, ty, n in t))
+    lines = [HEADER, "Definition legacy_templates : list (aop * nty * Z * Z * lir) := ["]
+    lines.append(";\n".join(f"  ({op}, {nty(*ty)}, {SHAPES[sh]}, {zl(lit)}, {lir_term(n)})" for op, ty, sh, lit, n in t))
     lines.append("].\n\nDefinition legacy_clamps : list (nty * lir) := [")
     lines.append(";\n".join(f"  ({nty(*ty)}, {lir_term(n)})" for ty, n in c))
     lines.append("].\n")
@@ -224,8 +265,8 @@ def gen_legacy():
 def gen_venom():
     t = venom_templates()
     c = venom_clamps()
-    lines = [HEADER, "Definition venom_templates : list (aop * nty * vtemplate) := ["]
-    lines.append(";\n".join(f"  ({op}, {nty(*ty)}, {vtemplate_term(*n)})" for op, ty, n in t))
+    lines = [HEADER, "Definition venom_templates : list (aop * nty * Z * Z * vtemplate) := ["]
+    lines.append(";\n".join(f"  ({op}, {nty(*ty)}, {SHAPES[sh]}, {zl(lit)}, {vtemplate_term(*n)})" for op, ty, sh, lit, n in t))
     lines.append("].\n\nDefinition venom_clamps : list (nty * vtemplate) := [")
     lines.append(";\n".join(f"  ({nty(*ty)}, {vtemplate_term(*n)})" for ty, n in c))
     lines.append("].\n")
